@@ -756,6 +756,21 @@ func checkRouter(r *rtRun) {
 		if c.SlowWrite > 0 {
 			bound += time.Duration(pending+1) * c.SlowMax // each transmission may stall inside the write
 		}
+		// Retransmissions asked for by lost indications stand in the same queue for the lock (ahead of
+		// the busy handler, if they were asked for first) and are paced like any other transmission.
+		rt := int(c.Retain)
+		if rt == 0 {
+			rt = 32
+		}
+		for _, x := range rx {
+			if x.F.OK && x.F.Svc == svcRoutingLost {
+				k := int(x.F.Count)
+				if k > rt {
+					k = rt
+				}
+				bound += time.Duration(k) * (c.P + eps + c.SlowMax)
+			}
+		}
 		for _, s := range r.sends {
 			if s.Inv.Seq < lastBusy.Seq && s.Done && s.Ret.Seq > lastBusy.Seq && s.Ret.T-lastBusy.T > bound {
 				e.Violate("C13", "resume-too-late", "Send id=%d, pending when the last routing-busy indication was read at %v, returned %v later; bound %v (%d pending Sends, pause %v, %d busy indications)", s.ID, lastBusy.T, s.Ret.T-lastBusy.T, bound, pending, c.P, n)
